@@ -52,10 +52,12 @@ class Facts:
         return None
 
 
+_CRATE_RE = re.compile(r"(?<![\w:])(core|alloc)::")
+
+
 def norm_path(p):
     """Normalise def_path_str output: std::/core::/alloc:: prefixes unified, no crate prefix."""
-    p = p.replace("core::", "std::").replace("alloc::", "std::")
-    return p
+    return _CRATE_RE.sub("std::", p)
 
 
 class Fn:
